@@ -672,3 +672,68 @@ V("C17", "C17.R7", "c17-yaml-key-unchecked", "shroud/ast.py",
 ''', '', "fire", "instantiation")
 V("C17", "C17.R1", "c17-silent-message-change", "shroud/generate.py",
   '"Cannot have attribute \'deref\' on non-pointer")', '"deref attribute requires a pointer or reference")', "silent")
+
+# ---------------------------------------------------------------------------
+# C14
+# ---------------------------------------------------------------------------
+V("C14", "C14.R1", "c14-new-arg-one-producer", "shroud/main.py",
+  '''    if args.language:
+        allinput['language'] = args.language''',
+  '''    if args.language:
+        allinput['language'] = args.language
+    if args.verbose:
+        print("verbose")''', "fire", "args.verbose")
+V("C14", "C14.R1", "c14-create-wrapper-missing", "shroud/main.py",
+  "    args.write_version = True\n", "", "fire", "create_wrapper:args.write_version")
+V("C14", "C14.R2", "c14-function-scope-unparented", "shroud/ast.py",
+  "        self.fmtdict = util.Scope(parent.fmtdict)\n\n        if fmtdict:",
+  "        self.fmtdict = util.Scope(None)\n\n        if fmtdict:", "fire", "FunctionNode.fmtdict")
+V("C14", "C14.R2", "c14-options-into-parent", "shroud/ast.py",
+  '''        self.options = util.Scope(parent.options)
+        if options:
+            self.options.update(options, replace=True)
+        self.wrap = WrapFlags(self.options)
+
+        self.default_format(parent, format, kwargs)
+
+        # working variables''',
+  '''        self.options = util.Scope(parent.options)
+        if options:
+            parent.options.update(options, replace=True)
+        self.wrap = WrapFlags(self.options)
+
+        self.default_format(parent, format, kwargs)
+
+        # working variables''', "fire", "FunctionNode")
+V("C14", "C14.R2", "c14-clone-shares-fmt", "shroud/ast.py",
+  '''        # new Scope with same inlocal and parent.
+        new.fmtdict = self.fmtdict.clone()''',
+  '''        # new Scope with same inlocal and parent.
+        new.fmtdict = self.fmtdict''', "fire", "FunctionNode.clone")
+V("C14", "C14.R3", "c14-block-typedefs-dropped", "shroud/ast.py",
+  "        self.typedefs = parent.typedefs\n        self.variables = parent.variables\n        self.scope = parent.scope",
+  "        self.variables = parent.variables\n        self.scope = parent.scope", "fire", "BlockNode.typedefs")
+V("C14", "C14.R3", "c14-block-own-list", "shroud/ast.py",
+  "        self.enums = parent.enums\n        self.functions = parent.functions\n        self.namespaces = parent.namespaces",
+  "        self.enums = parent.enums\n        self.functions = parent.classes\n        self.namespaces = parent.namespaces", "fire", "BlockNode.functions")
+V("C14", "C14.R4", "c14-fattrs-replace", "shroud/ast.py",
+  '            ast.attrs.update(kwargs["fattrs"])', '            ast.metaattrs.update(kwargs["fattrs"])', "fire", "fattrs")
+V("C14", "C14.R5", "c14-option-key", "shroud/main.py",
+  '''        if "options" in allinput:
+            allinput["options"].update(cmdoptions)
+        else:
+            allinput["options"] = cmdoptions''',
+  '''        if "option" in allinput:
+            allinput["option"].update(cmdoptions)
+        else:
+            allinput["option"] = cmdoptions''', "fire", "options")
+V("C14", "C14.R6", "c14-inlocal-looks-up-chain", "shroud/util.py",
+  '''        i.e. does not check parent.
+        """
+        return key in self.__dict__''',
+  '''        i.e. does not check parent.
+        """
+        return hasattr(self, key)''', "fire", "Scope.inlocal")
+V("C14", "C14.R6", "c14-update-noreplace-overwrites", "shroud/util.py",
+  "            elif not hasattr(self, key):\n                setattr(self, key, value)",
+  "            elif key not in self.__dict__:\n                setattr(self, key, value)", "fire", "Scope.update")
